@@ -79,7 +79,8 @@ def values_for(ty, cls, rng, n):
         if cls == "highbytes":
             return [[251, 239, 190, 255, 254], [255] * 7]
         ln = int(cls[3:])
-        return [[rng.below(256) for _ in range(ln + 3 * k)] for k in range(3)]
+        # lengths around 512 / 1536 / 4098: piecewise encoders have to carry the 3-byte groups across their buffer boundaries
+        return [[rng.below(256) for _ in range(ln + 3 * k)] for k in (0, 1, 2, 170, 512, 1366)]
     if ty == "datetime":
         base = {"y0000": [instant(0, 1, 1, 0, 0, 0, 0), instant(0, 12, 31, 23, 59, 59, 999999999)],
                 "y0001": [instant(1, 1, 1, 0, 0, 0, 0)], "epoch": [instant(1970, 1, 1, 0, 0, 0, 0)],
